@@ -38,9 +38,13 @@ def build_corpus(tier, seed):
         if not corpus.clean(variants, defs) or corpus.leaves_count(variants, defs) > 40:
             continue
         protos.append(([("cmd", v) for v in variants], defs))
+    # acyclic definition graphs with shared descendants (3-6 definitions): the order of definitions must not matter
+    from props import c08
+    for variants, defs in c08.dag_grammars(rnd, 12 if tier == "quick" else 120):
+        protos.append(([("cmd", v) for v in variants], defs))
     cases, lay_in = [], []
     for g, (vs, defs) in enumerate(protos):
-        recipes = [("=", True, None, None)] + variants_of(rnd, vs, defs, 2 if tier == "quick" else 5)
+        recipes = [("=", True, None, None)] + variants_of(rnd, vs, defs, (2 if tier == "quick" else 5) + (3 if len(defs) >= 3 and g >= ngram else 0))
         for r, (assign, semi, order, wrap) in enumerate(recipes):
             toks, ast = gen.statements_tokens(vs, defs, assign=assign, semi=semi, order=order, wrap=wrap)
             layout.annotate(toks)
